@@ -43,6 +43,8 @@ KEYS = {
         "F9(i): GLibEventLoop binds the handler list when the signal is enqueued: a handler registered later for a class that had none then is not invoked (and an ExceptionSignal keeps the kill handler); MainLoop looks the handlers up at dispatch",
     "main-newloop-after-close":
         "F13 seen from C20: execute_new_loop() called after close_loop() in the same handler returns at once in MainLoop (stale _run_loop=False); GLibEventLoop runs the new loop",
+    "main-frame-outlives-level":
+        "two levels closed from one dispatch (each of two handlers of the signal calls close_loop): MainLoop's frame of the outer closed level keeps running and dispatches from the queue below it; GLibEventLoop's loop of that level ends (the misuse C03/C05 exclude by well-bracketedness)",
     "glib-close-last-level":
         "F9(j): close_loop() with no nested level open: MainLoop raises ExitMainLoop, GLibEventLoop pops its only level (later calls fail with IndexError / ValueError)",
     "glib-wait-finishes-batch":
@@ -204,6 +206,9 @@ def classify(case, main, glib):
         if opened and not any(e[0] == DISPATCH for e, _ in nm[opened[-1]:k]) and \
                 any(e[0] == CLOSEPOP for e, _ in nm[:opened[-1]]):
             return ret("main-newloop-after-close")
+    # -- a level closed while a deeper loop was still open: MainLoop's frame of that level lives on
+    if kg == NLRETURN and km != NLRETURN and any(e[0] == CLOSEPOP and e[1] == eg[1] for e, _ in nm[:k]):
+        return ret("main-frame-outlives-level")
     # -- handlers bound at enqueue time
     if km == HANDLER and em[2] in h.enq_at and h.cls.get(em[2]) in h.reg_at \
             and h.reg_at[h.cls[em[2]]] > h.enq_at[em[2]] and not (kg == HANDLER and eg[2] == em[2]):
